@@ -116,6 +116,7 @@ type MOp struct {
 	Off  uint32
 	Col  string
 	Val  MVal
+	Dead bool // issued by an insert whose callback then returned an error: never existed
 }
 
 func (o MOp) String() string {
@@ -146,7 +147,7 @@ func (t *MTxn) Blocks() []uint32 {
 	seen := map[uint32]bool{}
 	var out []uint32
 	for _, o := range t.Ops {
-		if o.Kind == mInsert && t.Failed[o.Off] {
+		if o.Dead {
 			continue
 		}
 		b := o.Off >> 14
@@ -189,7 +190,7 @@ func (m *Model) applyBlockRaw(t *MTxn, block uint32) []Change {
 	deleted := map[uint32]bool{}
 	var deletedOrder []uint32
 	for _, o := range t.Ops {
-		if o.Off>>14 == block && o.Kind == mDelete && !deleted[o.Off] {
+		if o.Off>>14 == block && o.Kind == mDelete && !deleted[o.Off] && !o.Dead {
 			deleted[o.Off] = true
 			deletedOrder = append(deletedOrder, o.Off)
 		}
@@ -200,14 +201,14 @@ func (m *Model) applyBlockRaw(t *MTxn, block uint32) []Change {
 		}
 		switch o.Kind {
 		case mInsert:
-			delete(m.Reserved, o.Off)
-			if !t.Failed[o.Off] {
+			if !o.Dead {
+				delete(m.Reserved, o.Off)
 				m.Rows[o.Off] = map[string]MVal{}
 			}
 		}
 	}
 	for _, o := range t.Ops {
-		if o.Off>>14 != block || t.Failed[o.Off] {
+		if o.Off>>14 != block || o.Dead {
 			continue
 		}
 		r, live := m.Rows[o.Off]
@@ -227,7 +228,7 @@ func (m *Model) applyBlockRaw(t *MTxn, block uint32) []Change {
 		}
 	}
 	for _, o := range t.Ops {
-		if o.Off>>14 == block && o.Kind == mDelete {
+		if o.Off>>14 == block && o.Kind == mDelete && !o.Dead {
 			if _, ok := m.Rows[o.Off]; ok {
 				delete(m.Rows, o.Off)
 			}
@@ -245,18 +246,24 @@ func (m *Model) Apply(t *MTxn) {
 	for _, b := range t.Blocks() {
 		m.ApplyBlock(t, b)
 	}
-	// inserts that failed only ever held a reservation
-	for off := range t.Failed {
-		delete(m.Reserved, off)
-	}
 }
 
 // Abort drops a transaction: only its reservations ever existed.
 func (m *Model) Abort(t *MTxn) {
 	for _, o := range t.Ops {
-		if o.Kind == mInsert {
+		if o.Kind == mInsert && !o.Dead {
 			delete(m.Reserved, o.Off)
 		}
+	}
+}
+
+// killFrom marks every operation issued since index from as dead (failing insert).
+func (t *MTxn) killFrom(from int) {
+	for i := from; i < len(t.Ops); i++ {
+		t.Ops[i].Dead = true
+	}
+	if t.Failed == nil {
+		t.Failed = map[uint32]bool{}
 	}
 }
 
